@@ -93,7 +93,10 @@ MP_PAYLOAD = (b'--bnd\r\nContent-Disposition: form-data; name="a"\r\n\r\nvalue o
 
 def decode_wsgi(data, buf, pattern):
     import ombott
-    app = ombott.Ombott({'max_memfile_size': buf})
+    cfg = {'max_memfile_size': buf}
+    if decode_wsgi.payload_len is not None and getattr(decode_wsgi, 'n', 0) % 4 == 1:
+        cfg['max_body_size'] = decode_wsgi.payload_len + (getattr(decode_wsgi, 'n', 0) // 4) % 2          # a limit the payload just fits (equal, or one above): no say in the decoding
+    app = ombott.Ombott(cfg)
 
     @app.route('/c', method='POST')
     def h():
@@ -125,14 +128,17 @@ def decode_wsgi(data, buf, pattern):
 
 
 decode_wsgi.ctype = None
+decode_wsgi.payload_len = None
 
 
 def check_case(ctx, case):
     decode_wsgi.ctype = case.get('ctype')
+    decode_wsgi.payload_len = len(case['payload'])
     try:
         return _check_case(ctx, case)
     finally:
         decode_wsgi.ctype = None
+        decode_wsgi.payload_len = None
 
 
 def _check_case(ctx, case):
@@ -153,7 +159,8 @@ def _check_case(ctx, case):
     if case.get('mode') == 'legal_only':
         # very long encodings: the legal decode and a stride of truncations only (the fault enumeration is quadratic in the length)
         legal('direct', decode_direct)
-        legal('wsgi', decode_wsgi)
+        for _ in range(4):
+            legal('wsgi', decode_wsgi)
         last = [x for x in layout if x[0] == 'last'][0]
         for cut in range(1, last[2], max(1, last[2] // 12)):
             ctx.evals += 1
@@ -307,6 +314,12 @@ def run(ctx):
             for ct in ('multipart/form-data; boundary=bnd', 'multipart/mixed; boundary=bnd'):
                 ctx.guarded(check_case, dict(base, payload=MP_PAYLOAD, sizes=sizes, exts=[None], pattern=[], ctype=ct, buf_extra=40))
         ctx.count('multipart_payload_grid')
+        # one chunk / two chunks / many chunks whose total is exactly what a configured max_body_size allows (the legal decode runs through WSGI four times: two of them with the limit)
+        for total in (1, 16, 100):
+            for sizes in ([total], [total // 2 + 1, total], [1] * total):
+                for _ in range(2):
+                    ctx.guarded(check_case, dict(base, payload=bytes(65 + i % 26 for i in range(total)), sizes=sizes, exts=[None], pattern=[], mode='legal_only'))
+        ctx.count('limit_sized_payload_grid')
     n = 900 if ctx.tier == 'quick' else 6000
     ctx.hyp(_strategy(), check_case, n)
     if ctx.tier == 'thorough' and ctx.shard < 4:
